@@ -274,6 +274,9 @@ def r5_definitions(ctx):
         fn = ctx.func(RSYS, q)
         ctx.check(has(fn, frag), RSYS + ":" + q, key, msg + " (expected `%s`)" % frag, node=fn)
 
+    chk("ReactionSystem.check_duplicate", "for i1, rxn1 in enumerate(self.rxns): for i2, rxn2 in enumerate(self.rxns[i1 + 1:], i1 + 1): if rxn1 == rxn2:", "duplicates=equal-reactions",
+        "two reactions are duplicates when they compare equal (all sides, parameter and name), every pair examined -- not when they merely print alike")
+
     q = "ReactionSystem.split"
     fn = ctx.func(RSYS, q)
     wl = [n for n in fn.body if isinstance(n, ast.While)]
@@ -352,7 +355,7 @@ RULES = [
     Rule("C15-R1b", r1b_split_paths, 1, "split: index placed exactly once on every path of the grouping loop body", tier="thorough"),
     Rule("C15-R2", r2_categorize, 8, "categorisation signs and arms"),
     Rule("C15-R3", r3_bounds, 8, "upper bound = min(total/coeff), totals = sum coeff*conc"),
-    Rule("C15-R5", r5_definitions, 40, "membership tests, verdicts and argument order of the structural queries"),
+    Rule("C15-R5", r5_definitions, 41, "membership tests, verdicts and argument order of the structural queries"),
     Rule("C15-R4", r4_order_membership, 15, "order and membership plumbing"),
 ]
 
@@ -378,3 +381,5 @@ TWINS = [
     Twin("subset-if-statement", [(RSYS, "            yes.append(r) if pred(r) else no.append(r)", "            if pred(r):\n                yes.append(r)\n            else:\n                no.append(r)")]),
     Twin("totals-commuted", [(RSYS, "composition_conc[comp_nr] += coeff * conc", "composition_conc[comp_nr] += conc * coeff")]),
 ]
+
+MUTANTS.append(Mutant("duplicates-by-printed-form", [(RSYS, "                if rxn1 == rxn2:", "                if rxn1.string(with_param=False, with_name=False) == rxn2.string(with_param=False, with_name=False):")], "C15-R5", "duplicates=equal-reactions"))
